@@ -5,8 +5,12 @@ exact `fractions.Fraction` arithmetic.  Nothing in the oracle part uses fairlear
 Case (JSON):
   {"constraint": str, "objective": str, "flip": bool, "grid": int,
    "rows": [[group index, label 0/1, "score as fraction string"], ...],   # row order = order handed to fit()
-   "container": "ndarray" | "list" | "series" | "dataframe",             # container of y / sensitive_features
-   "gnames": "str" | "int"}                                               # how group indices are named
+   "container": "ndarray" | "ndarray2d" | "list" | "list2d" | "series" | "dataframe",   # of y / sensitive_features
+   "gnames": "str" | "int",                                               # how group indices are named
+   "yidx" / "sfidx" / "xidx": "default" | "perm" | "offset" | "str",       # pandas index LABELS of y / sensitive_features / X
+   "perm": [permutation of 0..n-1],                                       #   (only for the series / dataframe containers);
+   "yname": bool}                                                         # y DataFrame with a named column
+Rows are always paired by POSITION; index labels must never matter.
 """
 import itertools
 import math
@@ -30,6 +34,39 @@ OBJ_EO = ["accuracy_score", "balanced_accuracy_score"]
 GRIDS = [1, 2, 3, 5, 7, 10, 100, 1000]
 TOL = 1e-8          # |float - exact| on metric values / probabilities (all quantities are O(1))
 WTOL = 1e-9         # mixture weights below this are ignored when comparing operations
+
+
+# sha256 of lean/FairModel/Generated/ThresholdTables.lean as lifted from the pinned tree (METRIC_DICT,
+# _extend_confusion_matrix, actual/flipped counts, operations, equalized-odds counts, constraint/objective tables).
+PINNED_TABLES_SHA256 = "88782a97a44b434bcc82955feb2860c3bab9105de4e8a43adc88e9fc8767d3fc"
+_TABLES_STATE = {}
+
+
+def tables_changed():
+    """True when the translator lifted tables that differ from the pinned tree's.  The Lean model is built FROM these
+    tables, so a model-vs-oracle disagreement is then a statement about the source (its formulas no longer are the
+    first-principles metrics), not a bug of this machinery."""
+    if "v" not in _TABLES_STATE:
+        import hashlib
+        import os
+        from . import leanrun
+        path = os.path.join(leanrun.LEAN, "FairModel", "Generated", "ThresholdTables.lean")
+        try:
+            with open(path, "rb") as f:
+                _TABLES_STATE["v"] = hashlib.sha256(f.read()).hexdigest() != PINNED_TABLES_SHA256
+        except OSError:
+            _TABLES_STATE["v"] = False
+    return _TABLES_STATE["v"]
+
+
+def model_problem(msg, pid):
+    """model (Lean driver) vs first-principles oracle: HARNESS error on the pinned tables; when the lifted tables
+    changed it is reported as a broken tie instead (relation <pid>.generated-tables-vs-oracle)."""
+    from .core import Problem
+    if tables_changed():
+        return Problem("correspondence", "translator-fed model departs from the first-principles oracle "
+                       "(source tables changed): " + msg, f"{pid}.generated-tables-vs-oracle")
+    return Problem("harness", msg)
 
 
 def configs():
@@ -68,9 +105,12 @@ def xy_metrics(case):
 
 # ------------------------------------------------------------------------------- generation
 def gen_case(rng, tier, small=False):
-    cons, obj = rng.choice(CONFIGS)
     if rng.random() < 0.3:
         cons, obj = "equalized_odds", rng.choice(OBJ_EO)
+    else:
+        # the three rate objectives have their optimum at a constant classifier; keep them, but less often
+        cons = rng.choice(sorted(SIMPLE))
+        obj = rng.choice(["accuracy_score"] * 7 + ["balanced_accuracy_score"] * 7 + OBJ_SIMPLE[2:] * 2)
     ng = rng.choice([2, 2, 2, 3, 3, 4, 5])
     style = rng.random()
     if style < 0.55:      # heavy ties: few levels
@@ -92,21 +132,34 @@ def gen_case(rng, tier, small=False):
             sc = [F(k, 64) for k in pool]
         else:
             sc = [rng.choice(levels) for _ in range(m)]
-            if rng.random() < 0.15:      # uninformative group: all scores tied (ROC hull = diagonal)
+            if len(set(sc)) == 1:        # tied by chance: draw once more
+                sc = [rng.choice(levels) for _ in range(m)]
+            if rng.random() < 0.05:      # uninformative group: all scores tied (ROC hull = diagonal)
                 sc = [sc[0]] * m
-        informative = rng.random() < 0.5
+        informative = rng.random() < 0.7
         if informative and levels is not None:   # make scores correlate with labels in some groups
             sc = sorted(sc)
             labs = sorted(labs)
-            if rng.random() < 0.3:               # anti-correlated: flip matters
+            if rng.random() < 0.25:              # anti-correlated: flip matters
                 labs = labs[::-1]
+            # some noise so that the ROC curve is not a single step
+            for _ in range(rng.choice([0, 1, 1, 2])):
+                a, b_ = rng.randrange(m), rng.randrange(m)
+                labs[a], labs[b_] = labs[b_], labs[a]
         for s, l in zip(sc, labs):
             rows.append([g, l, str(s)])
     rng.shuffle(rows)
+    perm = list(range(len(rows)))
+    while len(rows) > 1 and perm == sorted(perm):
+        rng.shuffle(perm)
+    kinds = ["default", "perm", "perm", "offset", "str"]
     return {"constraint": cons, "objective": obj, "flip": rng.random() < 0.5,
             "grid": rng.choice(GRIDS if not small else [1, 2, 3, 5, 7, 10, 10, 100]),
-            "rows": rows, "container": rng.choice(["ndarray", "list", "series", "dataframe"]),
-            "gnames": rng.choice(["str", "int"])}
+            "rows": rows, "container": rng.choice(["ndarray", "ndarray2d", "list", "list2d", "series", "series",
+                                                   "dataframe", "dataframe"]),
+            "gnames": rng.choice(["str", "int"]),
+            "yidx": rng.choice(kinds), "sfidx": rng.choice(kinds), "xidx": rng.choice(kinds), "perm": perm,
+            "yname": rng.random() < 0.5}
 
 
 def exhaustive_cases(ngroups, nlevels, max_rows, cfg_cycle):
@@ -137,20 +190,58 @@ def cfg_cycle():
     return out
 
 
+def _compress(perm):
+    order = sorted(range(len(perm)), key=lambda i: perm[i])
+    out = [0] * len(perm)
+    for rank, i in enumerate(order):
+        out[i] = rank
+    return out
+
+
+def _fix_perm(case):
+    """after rows were dropped: make `perm` a permutation of 0..n-1 again (same relative order)"""
+    if "perm" in case:
+        n = len(case["rows"])
+        p = list(case["perm"])[:n] if len(case["perm"]) >= n else list(range(n))
+        case["perm"] = _compress(p)
+    return case
+
+
+def _drop_rows(case, keep):
+    c = dict(case, rows=[r for k, r in enumerate(case["rows"]) if k in keep])
+    if "perm" in case and len(case["perm"]) == len(case["rows"]):
+        c["perm"] = _compress([case["perm"][k] for k in sorted(keep)])
+    return c
+
+
+def index_labels(kind, perm, n):
+    if kind == "perm":
+        return [int(v) for v in perm[:n]]
+    if kind == "offset":
+        return list(range(100, 100 + n))
+    if kind == "str":
+        return [f"r{int(v)}" for v in perm[:n]]
+    return None
+
+
 def shrink_case(case):
     rows = case["rows"]
     gs = sorted({r[0] for r in rows})
     if len(gs) > 2:
         for g in gs:
-            c = dict(case, rows=[r for r in rows if r[0] != g])
-            yield c
+            yield _drop_rows(case, {k for k, r in enumerate(rows) if r[0] != g})
     for i in range(len(rows)):
-        c = dict(case, rows=rows[:i] + rows[i + 1:])
+        c = _drop_rows(case, set(range(len(rows))) - {i})
         if in_quantifier(c) and len({r[0] for r in c["rows"]}) == len(gs):
             yield c
     for gsz in (1, 2, 3, 5, 10):
         if gsz < case["grid"]:
             yield dict(case, grid=gsz)
+    for k in ("xidx", "sfidx", "yidx"):
+        if case.get(k, "default") != "default":
+            yield dict(case, **{k: "default"})
+    if case.get("yname"):
+        yield dict(case, yname=False)
     if case["container"] != "ndarray":
         yield dict(case, container="ndarray")
     if case.get("gnames") != "str":
@@ -192,17 +283,30 @@ def run_impl(case):
     scores = np.array([float(F(r[2])) for r in rows])
     y = [int(r[1]) for r in rows]
     sf = [gname(case, r[0]) for r in rows]
-    X = pd.DataFrame({"score": scores}) if case["container"] in ("dataframe", "series") else scores.reshape(-1, 1)
+    n = len(rows)
+    perm = case.get("perm") or list(range(n))
+    if len(perm) != n:
+        perm = list(range(n))
+    pandas_like = case["container"] in ("dataframe", "series")
+    yi = index_labels(case.get("yidx", "default"), perm, n) if pandas_like else None
+    si = index_labels(case.get("sfidx", "default"), perm, n) if pandas_like else None
+    xi = index_labels(case.get("xidx", "default"), perm, n) if pandas_like else None
+    X = pd.DataFrame({"score": scores}, index=xi) if pandas_like else scores.reshape(-1, 1)
     if case["container"] == "ndarray":
         yv, sv = np.array(y), np.array(sf)
+    elif case["container"] == "ndarray2d":      # column vectors of shape (n, 1)
+        yv, sv = np.array(y).reshape(-1, 1), np.array(sf).reshape(-1, 1)
     elif case["container"] == "list":
         yv, sv = list(y), list(sf)
+    elif case["container"] == "list2d":         # sensitive features as a list of one-element lists
+        yv, sv = list(y), [[v] for v in sf]
     elif case["container"] == "series":
-        yv, sv = pd.Series(y), pd.Series(sf)
+        yv, sv = pd.Series(y, index=yi), pd.Series(sf, index=si)
     else:
-        # y as a one-column DataFrame must have column label 0: equalized odds reads labels.sum().loc[0]
-        # (a named column raises KeyError: 0 at _threshold_optimizer.py:530 -- incidental defect, outside C04/C05)
-        yv, sv = pd.DataFrame(y), pd.DataFrame({"sf": sf})
+        # a NAMED single column half of the time: equalized odds used to read labels.sum().loc[0] (KeyError: 0,
+        # finding F13, repaired in /repo by ad411f1); corpus case f13-eo-named-y-dataframe keeps it covered
+        ycol = {"y": y} if case.get("yname", True) else {0: y}
+        yv, sv = pd.DataFrame(ycol, index=yi), pd.DataFrame({"sf": sf}, index=si)
     to = ThresholdOptimizer(estimator=_estimator(), prefit=True, predict_method="predict",
                             constraints=case["constraint"], objective=case["objective"],
                             grid_size=case["grid"], flip=case["flip"])
@@ -506,6 +610,11 @@ def case_tags(case, o):
             f"levels={'2' if nl == 2 else '3-6' if nl <= 6 else '>6'}", f"constraint={case['constraint']}",
             f"objective={case['objective']}", f"flip={case['flip']}", f"grid={case['grid']}",
             f"container={case['container']}", f"gnames={case.get('gnames', 'str')}"]
+    if case["container"] in ("series", "dataframe"):
+        tags += [f"yidx={case.get('yidx', 'default')}", f"sfidx={case.get('sfidx', 'default')}",
+                 f"xidx={case.get('xidx', 'default')}"]
+        if case["container"] == "dataframe":
+            tags.append("y-column-named" if case.get("yname", True) else "y-column-0")
     if any(len({s for s, _ in rows[g]}) == 1 for g in gs):
         tags.append("group-with-all-scores-tied")
     if any(len({s for s, _ in rows[g]}) < len(rows[g]) for g in gs):
